@@ -745,6 +745,11 @@ func runPersist(o *Opts) *Summary {
 		if cache <= 0 {
 			cache = 200
 		}
+		// rounds and frames are served from the cache only; two validators reach about
+		// one round every four steps: the cache must hold all rounds of the run
+		if nn == 2 && cache < o.Steps/3+40 {
+			cache = o.Steps/3 + 40
+		}
 		cn := NewCoreNet(w, CoreOpts{N: nn, Store: "badger", Cache: cache, Dir: o.Dir})
 		pn := &PNet{CoreNet: cn, o: o, recs: map[int]*RecStore{}, bss: map[int]*hg.BadgerStore{}, writes: map[int]int{}}
 		pn.gen = cn.nodes[0].genesis
